@@ -4,7 +4,9 @@
 package main
 
 import (
+	"bytes"
 	"encoding/json"
+	"os/exec"
 	"flag"
 	"fmt"
 	"os"
@@ -32,6 +34,7 @@ type result struct {
 	Samples      [][]string     `json:"samples"`
 	Wedged       int            `json:"wedged_histories"`
 	TriggerFree  int            `json:"trigger_free_histories"`
+	Crashes      int            `json:"crashes"`
 	OracleChecks map[string]int `json:"oracle_checks"`
 }
 
@@ -63,6 +66,9 @@ func main() {
 	oracles := fl.String("oracles", "", "comma separated property oracles to run (C01,C02,...)")
 	rss := fl.String("rs", "20,1,3", "record sizes to cycle through")
 	replay := fl.String("replay", "", "replay a history file instead of generating")
+	child := fl.Bool("child", false, "internal: run a shard in this process")
+	from := fl.Int("from", 0, "internal: first history index of the shard")
+	to := fl.Int("to", -1, "internal: one past the last history index of the shard")
 	mode := fl.String("mode", "plain", "history shape: plain | ro (populate, reopen read-only, mixed calls) | reopen (reopen/rebuild in the middle)")
 	work := fl.String("work", "", "scratch directory (default: a fresh temp dir, removed afterwards)")
 	knownPath := fl.String("known", "/verif/known-findings.jsonl", "known findings file (read only)")
@@ -80,8 +86,14 @@ func main() {
 	var res *result
 	switch stream {
 	case "fs":
-		res = runFS(fsOpts{seed: *seed, n: *n, length: *length, workers: *workers, driver: *driver, wild: *wild,
-			oracles: splitList(*oracles), rs: ints(*rss), scratch: scratch, replay: *replay, known: loadKnown(*knownPath), mode: *mode})
+		o := fsOpts{seed: *seed, n: *n, length: *length, workers: *workers, driver: *driver, wild: *wild,
+			oracles: splitList(*oracles), rs: ints(*rss), scratch: scratch, replay: *replay, known: loadKnown(*knownPath), mode: *mode,
+			from: *from, to: *to}
+		if *child {
+			res = runFS(o)
+		} else {
+			res = runFSParent(o, os.Args[2:])
+		}
 	default:
 		fmt.Fprintln(os.Stderr, "unknown stream", stream)
 		os.Exit(2)
@@ -137,6 +149,8 @@ type fsOpts struct {
 	replay  string
 	known   *Known
 	mode    string
+	from    int
+	to      int
 }
 
 func has(xs []string, x string) bool {
@@ -290,7 +304,18 @@ func runFS(o fsOpts) *result {
 					}
 					return g.Next(), true
 				}
-				hist, err := h.RunHistory(dir, c, id, next, len(o.oracles) > 0, oracleHook(o, dir))
+				var pend []string
+				pendPath := filepath.Join(o.scratch, fmt.Sprintf("pending-%d.in", j))
+				before := func(i int, call h.Call, envs []string) {
+					// progress for the parent (crash attribution) and the driver input so far
+					pend = append(pend[:0], h.CfgLine(c), "hist\t"+id)
+					pend = append(pend, envs...)
+					pend = append(pend, call.Line())
+					os.WriteFile(pendPath, []byte(strings.Join(pend, "\n")+"\n"), 0o644)
+					fmt.Printf("P %d %d\n", j, i)
+				}
+				hist, err := h.RunHistoryB(dir, c, id, next, len(o.oracles) > 0, oracleHook(o, dir), before)
+				os.Remove(pendPath)
 				os.RemoveAll(dir)
 				if err != nil {
 					mu.Lock()
@@ -306,11 +331,189 @@ func runFS(o fsOpts) *result {
 			flush()
 		}(w)
 	}
-	for j := 0; j < o.n; j++ {
+	hi := o.n
+	if o.to >= 0 {
+		hi = o.to
+	}
+	for j := o.from; j < hi; j++ {
 		jobs <- j
 	}
 	close(jobs)
 	wg.Wait()
 	sort.Slice(res.Mismatches, func(a, b int) bool { return res.Mismatches[a].Hist < res.Mismatches[b].Hist })
 	return res
+}
+
+// runFSParent shards the histories over child processes so that a panic in a goroutine of the
+// code under test (which kills the process) costs one history, is attributed to the call that
+// was running, and is reported as a failing input.
+func runFSParent(o fsOpts, args []string) *result {
+	total := &result{Methods: map[string]int{}, Results: map[string]int{}, Triggers: map[string]int{}, Branches: map[string]int{},
+		KnownHits: map[string]int{}, OracleChecks: map[string]int{}}
+	self, _ := os.Executable()
+	type shard struct{ from, to int }
+	var shards []shard
+	w := o.workers
+	if w < 1 {
+		w = 1
+	}
+	per := (o.n + w - 1) / w
+	for a := 0; a < o.n; a += per {
+		b := a + per
+		if b > o.n {
+			b = o.n
+		}
+		shards = append(shards, shard{a, b})
+	}
+	var mu sync.Mutex
+	var wg sync.WaitGroup
+	for k, sh := range shards {
+		wg.Add(1)
+		go func(k int, sh shard) {
+			defer wg.Done()
+			from := sh.from
+			for from < sh.to {
+				outp := filepath.Join(o.scratch, fmt.Sprintf("shard-%d-%d.json", k, from))
+				scr := filepath.Join(o.scratch, fmt.Sprintf("shard-%d", k))
+				os.MkdirAll(scr, 0o755)
+				cargs := append([]string{"fs"}, args...)
+				cargs = append(cargs, "-child", "-from", fmt.Sprint(from), "-to", fmt.Sprint(sh.to), "-out", outp, "-work", scr, "-workers", "1")
+				cmd := exec.Command(self, cargs...)
+				var stdout, stderr bytes.Buffer
+				cmd.Stdout = &stdout
+				cmd.Stderr = &stderr
+				err := cmd.Run()
+				if data, rerr := os.ReadFile(outp); rerr == nil {
+					var r result
+					if json.Unmarshal(data, &r) == nil {
+						mu.Lock()
+						mergeResult(total, &r)
+						mu.Unlock()
+					}
+					os.Remove(outp)
+					from = sh.to
+					if err == nil || cmd.ProcessState.ExitCode() == 3 || cmd.ProcessState.ExitCode() == 4 {
+						break
+					}
+				}
+				if err == nil {
+					break
+				}
+				// the child died: find the call that was running
+				lastJ, lastI := -1, -1
+				for _, l := range strings.Split(stdout.String(), "\n") {
+					var a, b int
+					if n, _ := fmt.Sscanf(l, "P %d %d", &a, &b); n == 2 {
+						lastJ, lastI = a, b
+					}
+				}
+				if lastJ < 0 {
+					mu.Lock()
+					total.Mismatches = append(total.Mismatches, h.Mismatch{Kind: "harness-error", Impl: []string{"child failed before the first call: " + tail(stderr.String(), 600)}})
+					mu.Unlock()
+					break
+				}
+				pend, _ := os.ReadFile(filepath.Join(scr, fmt.Sprintf("pending-%d.in", lastJ)))
+				calls := []string{}
+				for _, l := range strings.Split(string(pend), "\n") {
+					if strings.HasPrefix(l, "env\t") || strings.HasPrefix(l, "call\t") {
+						calls = append(calls, l)
+					}
+				}
+				fired := driverTriggers(o.driver, pend)
+				mu.Lock()
+				total.Crashes++
+				for _, p := range o.oracles {
+					f := OracleFail{Property: p, Hist: fmt.Sprintf("%d-%d", o.seed, lastJ), Step: lastI,
+						What: "the process crashed (panic) while this call was running: " + firstLine(stderr.String()), Triggers: fired, Calls: calls}
+					f.Known = o.known.Explain(p, fired)
+					if f.Known != "" {
+						total.KnownHits[f.Known]++
+					}
+					total.OracleFails = append(total.OracleFails, f)
+				}
+				if len(o.oracles) == 0 {
+					total.Mismatches = append(total.Mismatches, h.Mismatch{Hist: fmt.Sprintf("%d-%d", o.seed, lastJ), Step: lastI, Kind: "crash",
+						Impl: []string{firstLine(stderr.String())}, Calls: calls})
+				}
+				mu.Unlock()
+				from = lastJ + 1
+			}
+		}(k, sh)
+	}
+	wg.Wait()
+	sort.Slice(total.Mismatches, func(a, b int) bool { return total.Mismatches[a].Hist < total.Mismatches[b].Hist })
+	return total
+}
+
+func tail(s string, n int) string {
+	if len(s) > n {
+		return s[len(s)-n:]
+	}
+	return s
+}
+
+func firstLine(s string) string {
+	for _, l := range strings.Split(s, "\n") {
+		if strings.TrimSpace(l) != "" {
+			return l
+		}
+	}
+	return ""
+}
+
+// driverTriggers runs a (partial) driver input through the model and returns every trigger
+// that fired.
+func driverTriggers(driver string, input []byte) []string {
+	cmd := exec.Command(driver)
+	cmd.Stdin = bytes.NewReader(input)
+	out, err := cmd.Output()
+	if err != nil {
+		return nil
+	}
+	fired := []string{}
+	for _, l := range strings.Split(string(out), "\n") {
+		if strings.HasPrefix(l, "trig\t") {
+			for _, t := range strings.Split(strings.TrimPrefix(l, "trig\t"), "\t") {
+				if !has(fired, t) {
+					fired = append(fired, t)
+				}
+			}
+		}
+	}
+	return fired
+}
+
+func mergeResult(t, r *result) {
+	t.Histories += r.Histories
+	t.Calls += r.Calls
+	t.Nontrivial += r.Nontrivial
+	t.Wedged += r.Wedged
+	t.TriggerFree += r.TriggerFree
+	t.Crashes += r.Crashes
+	for k, v := range r.Methods {
+		t.Methods[k] += v
+	}
+	for k, v := range r.Results {
+		t.Results[k] += v
+	}
+	for k, v := range r.Triggers {
+		t.Triggers[k] += v
+	}
+	for k, v := range r.Branches {
+		t.Branches[k] += v
+	}
+	for k, v := range r.KnownHits {
+		t.KnownHits[k] += v
+	}
+	for k, v := range r.OracleChecks {
+		t.OracleChecks[k] += v
+	}
+	t.Mismatches = append(t.Mismatches, r.Mismatches...)
+	t.OracleFails = append(t.OracleFails, r.OracleFails...)
+	for _, s := range r.Samples {
+		if len(t.Samples) < 3 {
+			t.Samples = append(t.Samples, s)
+		}
+	}
 }
